@@ -73,6 +73,14 @@ type Script struct {
 	// Sibs: 0, or the number (1..3) of OTHER jobs of the same scheduler whose names have the prefix "job"; three
 	// more whose names do not ("jo", "ajob", "Job") come with them.  One-off and periodic, far in the future.
 	Sibs int `json:"sibs,omitempty"`
+	// What the runtime function of a periodic job returns (strengthening round 6: instances that are NOT in the
+	// future when they are handed out).  Default: now + Due units (Due 0: "now").  Lag (only with Due 0): now - Lag
+	// units, a time that has passed (for the model the same script: due at once).  Fixed: a FIXED-RATE schedule,
+	// the k-th instance is at t0 + (k*Due - Behind) units whatever the moment it is asked for: with Dur > Due the job
+	// overruns its period, with Behind > 0 the schedule starts behind (a catch-up); Coq: sc_behind := Some Behind.
+	Lag    int  `json:"lag,omitempty"`
+	Fixed  bool `json:"fixed,omitempty"`
+	Behind int  `json:"behind,omitempty"`
 }
 
 // prefixOf: the string handed to CancelJobs.
@@ -301,9 +309,18 @@ func body(sc Script, st *shared) {
 				return time.Time{}, scheduler.ErrNoMoreInstances
 			}
 			left--
-			next := time.Now().Add(ms(sc.Due))
+			asked := time.Now()
+			next := asked.Add(ms(sc.Due - sc.Lag))
+			if sc.Fixed {
+				next = t0.Add(ms((sc.Ticks-left)*sc.Due - sc.Behind))
+			}
+			// observed: the instant at which this instance is due (an instance whose time has passed is due now)
+			due := next
+			if due.Before(asked) {
+				due = asked
+			}
 			st.mu.Lock()
-			st.insts = append(st.insts, at(next))
+			st.insts = append(st.insts, at(due))
 			st.mu.Unlock()
 			return next, nil
 		}
@@ -647,8 +664,12 @@ func scriptTerm(sc Script) string {
 	if sc.Kind == "periodic" {
 		kind = "Periodic"
 	}
+	behind := "None"
+	if sc.Kind == "periodic" && sc.Fixed {
+		behind = "(Some " + N(uint64(sc.Behind)) + ")"
+	}
 	return Record("sc_kind", kind, "sc_variant", "Fixed", "sc_due", N(uint64(sc.Due)), "sc_dur", N(uint64(sc.Dur)),
-		"sc_ticks", N(uint64(sc.Ticks)), "sc_calls", List(calls), "sc_end", N(uint64(sc.End)))
+		"sc_ticks", N(uint64(sc.Ticks)), "sc_calls", List(calls), "sc_end", N(uint64(sc.End)), "sc_behind", behind)
 }
 
 func obsKey(o Obs) string {
@@ -705,6 +726,12 @@ func removes(k string) bool {
 // firstClaim: before this instant the job is certainly in the table.
 func firstClaim(sc Script) int {
 	m := sc.Due
+	if sc.Kind == "periodic" && sc.Fixed {
+		m = sc.Due - sc.Behind // the first instance's time
+		if m < 0 {
+			m = 0
+		}
+	}
 	if sc.Kind == "periodic" && sc.Ticks == 0 {
 		m = 0
 	}
@@ -723,6 +750,20 @@ func firstClaim(sc Script) int {
 func normalise(sc Script) Script {
 	if sc.Due < 0 {
 		sc.Due = 0
+	}
+	// the runtime function: a lag only for "now" (period 0), a fixed-rate schedule only for periodic jobs; a job
+	// whose instances are due the moment they are handed out takes time (otherwise all of them run at one instant)
+	if sc.Kind != "periodic" {
+		sc.Lag, sc.Fixed, sc.Behind = 0, false, 0
+	}
+	if sc.Lag < 0 || sc.Due != 0 || sc.Fixed {
+		sc.Lag = 0
+	}
+	if sc.Behind < 0 || !sc.Fixed {
+		sc.Behind = 0
+	}
+	if sc.Kind == "periodic" && (sc.Due == 0 || sc.Fixed) && sc.Dur < 1 {
+		sc.Dur = 1
 	}
 	fc := firstClaim(sc)
 	var calls []Call
@@ -1721,6 +1762,24 @@ func TestC02(t *testing.T) {
 	for i := 0; i < np/5; i++ {
 		ins = append(ins, Input{Table: genPrefixTable(trng.Fork()), Tags: []string{"table", "table:prefixes"}})
 	}
+	// periodic jobs whose instances are already due when runtimeFunc hands them out ("now", a fixed-rate schedule
+	// overrun by its job, a catch-up), cancelled during such a stretch: on top again, from its own stream; four of
+	// them also in real time
+	hrng := rng.Fork()
+	nh := n / 10
+	if n > 0 && nh < 20 {
+		nh = 20
+	}
+	for i := 0; i < nh; i++ {
+		sc, tags := genBehind(hrng.Fork(), i)
+		ins = append(ins, Input{Script: &sc, Tags: tags})
+	}
+	if nr > 0 {
+		for i := 0; i < 4; i++ {
+			sc, tags := genRealBehind(hrng.Fork(), i)
+			ins = append(ins, Input{Script: &sc, Tags: tags})
+		}
+	}
 	// decide repetitions and tags
 	work := make([]Work, 0, len(ins))
 	for _, in := range ins {
@@ -1946,6 +2005,12 @@ func TestC02(t *testing.T) {
 		for _, c := range sc.Calls {
 			if c.Kind == "cancelall" {
 				key += fmt.Sprintf(" %d/byprefix", c.At)
+			}
+		}
+		if sc.Kind == "periodic" && (sc.Due == 0 || sc.Fixed) {
+			col.Count("periodic:instances-not-in-the-future")
+			if sc.Lag > 0 {
+				key += fmt.Sprintf(" lag%d", sc.Lag) // how far in the past the times lie is not part of the Coq term (due at once)
 			}
 		}
 		if sc.RtErr {
